@@ -557,7 +557,7 @@ func readContractFile(path, pkg string) ([]*Contract, error) {
 	for _, c := range out {
 		for _, cl := range c.Clauses {
 			switch cl.Kind {
-			case "modifies", "borrows", "moves", "flushes", "witness", "stateless", "induction", "import":
+			case "modifies", "borrows", "moves", "flushes", "witness", "stateless", "induction", "import", "rel":
 				for _, n := range strings.Split(cl.Text, ",") {
 					if n = strings.TrimSpace(n); n != "" {
 						cl.Names = append(cl.Names, n)
